@@ -50,6 +50,8 @@ func StatsFor(prop string) *Stats {
 
 func (s *Stats) Eval() { s.mu.Lock(); s.Evaluations++; s.mu.Unlock() }
 
+func (s *Stats) AddEval(n int) { s.mu.Lock(); s.Evaluations += n; s.mu.Unlock() }
+
 func (s *Stats) AddFeat(k string, n int) { s.mu.Lock(); s.Feat[k] += n; s.mu.Unlock() }
 
 // NonTrivial records a non-trivial case by its skeleton; sample is kept for
@@ -254,4 +256,21 @@ func Replay(t *testing.T, path string) {
 	if rep := Report(c, w, Owned[c.Prop]); rep != nil {
 		t.Fatalf("property %s violated (replay %s)\ncase: %s\n%s", c.Prop, path, c, strings.Join(rep, "\n"))
 	}
+}
+
+// SaveJSON / LoadJSON are small helpers for replay files of the pure-function checks.
+func SaveJSON(path string, v any) error {
+	b, err := json.MarshalIndent(v, "", " ")
+	if err != nil {
+		return err
+	}
+	return os.WriteFile(path, b, 0o644)
+}
+
+func LoadJSON(path string, v any) error {
+	b, err := os.ReadFile(path)
+	if err != nil {
+		return err
+	}
+	return json.Unmarshal(b, v)
 }
